@@ -6,6 +6,7 @@ mod p_c09;
 mod p_c20;
 mod p_dom;
 mod p_get;
+mod p_num;
 mod dump;
 mod rng;
 mod tables;
@@ -26,6 +27,8 @@ fn main() {
                 "C02" => p_c02::run(&mut out, tier, seed),
                 "C09" => p_c09::run(&mut out, tier, seed),
                 "C20" => p_c20::run(&mut out, tier, seed),
+                "C07" => p_num::run_c07(&mut out, tier, seed),
+                "C08" => p_num::run_c08(&mut out, tier, seed),
                 "C03" => p_dom::run_c03(&mut out, tier, seed),
                 "C06" => p_dom::run_c06(&mut out, tier, seed),
                 "C13" => p_dom::run_c13(&mut out, tier, seed),
@@ -41,6 +44,12 @@ fn main() {
             out.finish();
         }
         "tables" => tables::dump(&args[2]),
+        "f32all" => {
+            let (shard, shards) = (args[2].parse().unwrap(), args[3].parse().unwrap());
+            let bad = p_num::f32_all(shard, shards);
+            println!("bad={bad}");
+            std::process::exit(if bad == 0 { 0 } else { 1 });
+        }
         "witness" => witness::run(args.get(2).map(|s| s == "deep").unwrap_or(false)),
         _ => {
             eprintln!("unknown command");
